@@ -54,7 +54,9 @@ class ProbeClf(BaseEstimator, ClassifierMixin):
         return (X[:, 0] > self.thr).astype(int)
 
 
-def margin_probe(det, sample, clf):
+def margin_probe(*args):
+    # the library hands over (detector, sample, classifier); its documentation speaks of (sample, classifier): accept both
+    sample, clf = args[-2], args[-1]
     s = int(abs(float(sample[0]) - clf.thr) <= 0.5)
     LOG.append(("margin", np.asarray(sample, dtype=float).copy(), s))
     return s
